@@ -332,12 +332,90 @@ theorem cellFor_selects (c : Ctx) (m : MethodC) (mr : MethodRec) (hm : MethodMat
       intro hspec
       exact hms ((msOf_iff c m mr hm i j df e hi he).mpr hspec)
 
+/-- **`is_base` decides "strictly more general"** -/
+theorem moreGeneral_iff (c : Ctx) (va vb : List Nat) (da db : DefRec) (ha : Names c va da.vp) (hb : Names c vb db.vp)
+    (hlen : da.vp.length = db.vp.length) :
+    isBase (fun x y => (c.g.cov.get y).contains x) va vb = true ↔ MoreGeneral c.proj c.reg da db := by
+  have hder : (fun x y => (c.g.cov.get y).contains x) = derG c.g := rfl
+  rw [hder, Specificity.isBase_eq (derG c.g) va vb (by rw [names_length c ha, names_length c hb, hlen])]
+  unfold MoreGeneral
+  rw [Bool.and_eq_true]
+  -- first conjunct: everywhere `b`'s class derives from `a`'s (or is equal)
+  have h1 : all₂ (fun x y => x == y || derG c.g y x) va vb = true ↔
+      Forall₂ (fun dp ep => Derives c.proj c.reg (c.proj dp) (c.proj ep)) db.vp da.vp := by
+    -- swap the two lists
+    have swap : ∀ (l₁ l₂ : List Nat), all₂ (fun x y => x == y || derG c.g y x) l₁ l₂ =
+        all₂ (fun y x => x == y || derG c.g y x) l₂ l₁ := by
+      intro l₁
+      induction l₁ with
+      | nil => intro l₂; cases l₂ <;> simp [all₂]
+      | cons a as ih => intro l₂; cases l₂ with
+        | nil => simp [all₂]
+        | cons b bs => simp [all₂, ih bs]
+    rw [swap]
+    exact all₂_names c (fun y x => x == y || derG c.g y x)
+      (fun dp ep => Derives c.proj c.reg (c.proj dp) (c.proj ep)) (by
+        intro y x ty tx hy hx
+        rw [← derG_iff c y x _ _ hy hx]
+        by_cases hxy : x = y
+        · subst hxy
+          simp only [beq_self_eq_true, Bool.true_or, true_iff]
+          rw [derG_iff c x x _ _ hy hy]
+          exact Derives.refl _
+        · simp [hxy]) vb db.vp va da.vp hb ha
+  -- second conjunct: the parameter lists differ somewhere
+  have h2 : any₂ (fun x y => x != y) va vb = true ↔ da.vp.map c.proj ≠ db.vp.map c.proj := by
+    rw [any₂_names c (fun x y => x != y) (fun dp ep => c.proj dp ≠ c.proj ep) (by
+      intro x y tx ty hx hy
+      simp only [bne_iff_ne, ne_eq]
+      exact ne_iff_key_ne c x y tx ty hx hy) va da.vp vb db.vp ha hb]
+    constructor
+    · rintro ⟨i, dp, ep, h1, h2, hne⟩ heq
+      have e1 : (da.vp.map c.proj)[i]? = some (c.proj dp) := by simp [h1]
+      have e2 : (db.vp.map c.proj)[i]? = some (c.proj ep) := by simp [h2]
+      rw [heq, e2] at e1
+      exact hne (Option.some.inj e1).symm
+    · intro hne
+      -- two lists of the same length that differ, differ at some position
+      have : ∀ (l₁ l₂ : List Nat), l₁.length = l₂.length → l₁.map c.proj ≠ l₂.map c.proj →
+          ∃ (i : Nat) (dp ep : Nat), l₁[i]? = some dp ∧ l₂[i]? = some ep ∧ c.proj dp ≠ c.proj ep := by
+        intro l₁
+        induction l₁ with
+        | nil => intro l₂ hl hn; cases l₂ with
+          | nil => exact absurd rfl hn
+          | cons _ _ => simp at hl
+        | cons a as ih =>
+          intro l₂ hl hn
+          cases l₂ with
+          | nil => simp at hl
+          | cons b bs =>
+            by_cases hab : c.proj a = c.proj b
+            · have : as.map c.proj ≠ bs.map c.proj := by
+                intro e; apply hn; simp [hab, e]
+              obtain ⟨i, dp, ep, h1, h2, h3⟩ := ih bs (by simpa using hl) this
+              exact ⟨i + 1, dp, ep, by simpa using h1, by simpa using h2, h3⟩
+            · exact ⟨0, a, b, by simp, by simp, hab⟩
+      exact this da.vp db.vp hlen hne
+  rw [h1, h2]
+
 theorem specs_arity (c : Ctx) (m : MethodC) (mr : MethodRec) (hm : MethodMatches c m mr) :
     ∀ s ∈ m.specs, s.2.length = m.vp.length := by
   intro s hs
   obtain ⟨i, hi⟩ := List.getElem?_of_mem hs
   obtain ⟨df, hdf, _, hn⟩ := (spec_get c m mr hm i).1 s hi
   rw [names_length c hn, hm.arity df (List.mem_of_getElem? hdf), ← names_length c hm.vp]
+
+/-- a definition cell names an existing, applicable definition -/
+theorem cellFor_defn_exists (c : Ctx) (m : MethodC) (mr : MethodRec) (hm : MethodMatches c m mr)
+    (cs ks : List Nat) (hk : Forall₂ (fun i k => c.key i = some k) cs ks)
+    (cands : List Nat) (hc : ∀ i, i ∈ cands ↔ applicableTo c.g m cs i = true) (i : Nat)
+    (hcell : CellFor (msOf c.g m) cands (.defn i)) : ∃ df, mr.defs[i]? = some df := by
+  rcases hcell with ⟨h, _⟩ | ⟨d, h, hd, _⟩ | ⟨h, _⟩
+  · cases h
+  · cases h
+    obtain ⟨df, hdf, _⟩ := ((hc i).trans (applicableTo_iff c m mr hm cs ks hk i)).mp hd
+    exact ⟨df, hdf⟩
+  · cases h
 
 /-- **the dispatch table `update` builds for a method holds, for every tuple of acceptable classes,
     at the mixed-radix offset of the tuple's group indices, the outcome the specification prescribes** -/
@@ -346,10 +424,52 @@ theorem dispatch_table_correct (c : Ctx) (m : MethodC) (mr : MethodRec) (hm : Me
     (hloc : LocatedAll c.g m 0 m.vp cs gis) :
     ∃ cell conc,
       (dispatchMethod c.g m).table[TableProofs.offset (dispatchMethod c.g m).groups.reverse gis.reverse]? = some (cell, conc) ∧
-      Selects c.proj c.reg mr.defs ks (outcomeOf mr.defs cell) := by
+      Selects c.proj c.reg mr.defs ks (outcomeOf mr.defs cell) ∧
+      (∀ i, cell = .defn i → ∃ df, mr.defs[i]? = some df) := by
   obtain ⟨mask, conc, hcell, hmem⟩ := cell_content c.g m (specs_arity c m mr hm) cs gis hloc
-  refine ⟨_, conc, hcell, ?_⟩
-  exact cellFor_selects c m mr hm cs ks hk (applicableOf mask) hmem _
-    (cellOfBest_spec (msOf c.g m) (msOf_asymm c m mr hm) (applicableOf mask))
+  have hcf := cellOfBest_spec (msOf c.g m) (msOf_asymm c m mr hm) (applicableOf mask)
+  refine ⟨_, conc, hcell, cellFor_selects c m mr hm cs ks hk (applicableOf mask) hmem _ hcf, ?_⟩
+  intro i hi
+  rw [hi] at hcf
+  exact cellFor_defn_exists c m mr hm cs ks hk (applicableOf mask) hmem i hcf
+
+/-! ## `next` -/
+
+theorem nexts_eq (g : Graph) (m : MethodC) (i : Nat) (hi : i < m.specs.length) :
+    (dispatchMethod g m).nexts[i]? = some (cellOfBest (best (msOf g m)
+      ((List.range m.specs.length).filter (fun o =>
+        isBase (fun x y => (g.cov.get y).contains x) ((m.specs[o]?.map (·.2)).getD []) ((m.specs[i]?.map (·.2)).getD []))))) := by
+  simp only [dispatchMethod, List.getElem?_map, List.getElem?_range hi, Option.map_some]
+  rfl
+
+/-- **C03 on the model**: the `next` cell of definition `i` is computed from exactly the definitions
+    strictly more general than it: the not-implemented handler when there is none, the one more
+    specific than all the others when it exists, the ambiguity handler otherwise -/
+theorem next_correct (c : Ctx) (m : MethodC) (mr : MethodRec) (hm : MethodMatches c m mr) (i : Nat) (d : DefRec)
+    (hd : mr.defs[i]? = some d) :
+    ∃ cell cands, (dispatchMethod c.g m).nexts[i]? = some cell ∧
+      (∀ o, o ∈ cands ↔ ∃ e, mr.defs[o]? = some e ∧ MoreGeneral c.proj c.reg e d) ∧
+      CellFor (msOf c.g m) cands cell := by
+  have hlen := forall₂_length hm.specs
+  have hi : i < m.specs.length := hlen.symm ▸ (List.getElem?_eq_some_iff.mp hd).1
+  refine ⟨_, _, nexts_eq c.g m i hi, ?_, cellOfBest_spec (msOf c.g m) (msOf_asymm c m mr hm) _⟩
+  intro o
+  simp only [List.mem_filter, List.mem_range]
+  obtain ⟨spi, hspi, _, hni⟩ := (spec_get c m mr hm i).2 d hd
+  constructor
+  · rintro ⟨holt, hb⟩
+    have hoe : mr.defs[o]? = some mr.defs[o] := List.getElem?_eq_getElem (hlen ▸ holt)
+    obtain ⟨spo, hspo, _, hno⟩ := (spec_get c m mr hm o).2 _ hoe
+    simp only [hspo, hspi, Option.map_some, Option.getD_some] at hb
+    refine ⟨_, hoe, ?_⟩
+    exact (moreGeneral_iff c spo.2 spi.2 _ d hno hni
+      (by rw [hm.arity _ (List.mem_of_getElem? hoe), hm.arity d (List.mem_of_getElem? hd)])).mp hb
+  · rintro ⟨e, he, hmg⟩
+    have holt : o < m.specs.length := hlen.symm ▸ (List.getElem?_eq_some_iff.mp he).1
+    obtain ⟨spo, hspo, _, hno⟩ := (spec_get c m mr hm o).2 e he
+    refine ⟨holt, ?_⟩
+    simp only [hspo, hspi, Option.map_some, Option.getD_some]
+    exact (moreGeneral_iff c spo.2 spi.2 e d hno hni
+      (by rw [hm.arity e (List.mem_of_getElem? he), hm.arity d (List.mem_of_getElem? hd)])).mpr hmg
 
 end Yomm2.Bridge
